@@ -397,13 +397,15 @@ func init() {
 		if e.Rep.Thorough() {
 			maxDev = 3
 		}
-		cells := familyLayout(maxDev)
+		base := append([]int(nil), layoutBase...)
+		base[12], base[3] = 1, 1 // commented neighbours, a declaration after the interface
+		cells := familyLayoutFrom(base, maxDev)
 		for _, c := range cells {
 			c.Env = []string{layoutMarkers}
 		}
 		e.Rep.Bound("layout_deviations", maxDev)
 		e.Rep.Rule(fmt.Sprintf("layout alphabet (14 dimensions, radices %v) with content around the interfaces (declarations of every kind with doc/line/trailing comments, package doc, imports, notation-looking comments on unmarked interfaces): "+
-			"every layout within %d deviations of the README layout plus the marker-arithmetic sub-product; oracle: AST of the output vs AST of the setup file - ordered declaration list (gofmt-normalised, converter interfaces replaced in place by their functions), "+
+			"every layout within %d deviations of the README layout with commented neighbouring declarations before and after the interface, plus the marker-arithmetic sub-product; oracle: AST of the output vs AST of the setup file - ordered declaration list (gofmt-normalised, converter interfaces replaced in place by their functions), "+
 			"package doc, multiset of comments outside converter interfaces, function docs == non-notation method comment lines, no build/generate/notation line left, referenced and blank imports kept; "+
 			"non-trivial = accepted cell with >= 2 carried-over declarations and >= 2 comments outside the converter interfaces", layoutRadices, maxDev))
 		var sampled atomic.Int32
